@@ -66,6 +66,8 @@ fn main() {
     if let Some(f) = arg(&args, "--fit").and_then(|s| s.parse::<usize>().ok()) {
         prof.fit = f;
     }
+    // --cloneshift: values whose clones have a different heap size than the originals
+    let cloneshift = args.iter().any(|a| a == "--cloneshift");
     if args.iter().any(|a| a == "--uniform") {
         // all entries the same size: the number of entries stays exactly at `fit`
         prof.vmax = 0;
@@ -91,7 +93,7 @@ fn main() {
     let mut out = BufWriter::new(std::fs::File::create(arg(&args, "--events").expect("--events")).unwrap());
     let mut script = arg(&args, "--script-out").map(|p| BufWriter::new(std::fs::File::create(p).unwrap()));
     let mut rng = StdRng::seed_from_u64(seed);
-    let overhead = lru_mem::entry_size(&TKey::probe(1), &TVal { tok: 0, heap: 0 });
+    let overhead = lru_mem::entry_size(&TKey::probe(1), &TVal { tok: 0, heap: 0, clone_delta: 0 });
     let mut session = Session::new(cfg.clone());
     let mut leaked = false;
     let mut in_segment = 0u64;
@@ -101,6 +103,10 @@ fn main() {
     let mut max_buckets = 0usize;
     let mut tomb_states = 0u64;
     let mut next_key: u32 = 0;
+    // --cloneshift: a clone whose values differ in size from what was recorded for them is
+    // outside what the properties assume for continued use (sizes change only inside mutate);
+    // it is observed when it is made and dropped right afterwards
+    let mut pending_drop: Option<u32> = None;
 
     for _ in 0..steps {
         // end of a segment: drop everything and check nothing is left alive
@@ -117,7 +123,12 @@ fn main() {
         in_segment += 1;
         let alive: Vec<u32> = session.caches.keys().cloned().collect();
 
-        let mut o = if pname == "fifo" && alive.contains(&1) {
+        let mut forced = false;
+        let mut o = if let Some(dd) = pending_drop.take().filter(|dd| alive.contains(dd)) {
+            forced = true;
+            op("drop", dd)
+        }
+        else if pname == "fifo" && alive.contains(&1) {
             let cache = session.caches.get(&1).unwrap();
             let len = cache.len();
             let snap = cache.verif_snapshot();
@@ -218,6 +229,11 @@ fn main() {
                 o["a"]["kh"] = json!(prof.kheaps[rng.gen_range(0..prof.kheaps.len())]);
                 o["a"]["vs"] = json!(rng.gen_range(0..=prof.vmax));
                 if rng.gen_bool(0.03) { o["a"]["vs"] = json!(prof.vmax * prof.fit * 3); }
+                if cloneshift && rng.gen_bool(0.5) {
+                    // a clone that is tighter, roomier, or too large for the whole cache
+                    let deltas: [i64; 5] = [-3, -1, 2, 7, (prof.vmax * prof.fit * 40) as i64];
+                    o["a"]["cd"] = json!(deltas[rng.gen_range(0..5)]);
+                }
             }
             else if r < 400 {
                 o = op("mutate", c);
@@ -350,7 +366,7 @@ fn main() {
                 || (nm == "set_max_size" && o["a"]["n"].as_i64().unwrap_or(0) >= 0
                     && rng.gen_bool(0.7))
                 || (nm == "retain" && rng.gen_bool(0.6));
-            if destructive && prof.calm > 0.0 && rng.gen_bool(prof.calm) {
+            if destructive && !forced && prof.calm > 0.0 && rng.gen_bool(prof.calm) {
                 let c = o["c"].as_u64().unwrap_or(1) as u32;
                 o = op("get", c);
                 o["a"]["k"] = json!(rng.gen_range(1..=prof.universe));
@@ -371,6 +387,10 @@ fn main() {
             let biggest = session.caches.values().map(|c| c.len()).max().unwrap_or(0) as u32;
             let n = if rng.gen_bool(0.5) { rng.gen_range(1..6) } else { rng.gen_range(1..=(biggest + 4)) };
             o["crash"] = json!({"kind": kind, "n": n});
+        }
+
+        if cloneshift && (name == "clone" || name == "clone_from") {
+            pending_drop = o["d"].as_u64().map(|x| x as u32);
         }
 
         let ev = session.exec(&o);
